@@ -23,7 +23,25 @@ import (
 
 var c11Fields = []string{"D", "my field", `d"q`, strings.Repeat("n", 70)}
 
+// c11Extras: value groups mixing plain values with patterns, numbers and phrases, and bare terms of
+// every kind — where scoping decisions depend on the kind of a term.
+func c11Extras() []*qast.Node {
+	T := func(v qast.Value) *qast.Node { return qast.Lf(qast.Leaf{Kind: qast.LTerm, Val: v}) }
+	G := func(sub *qast.Node) *qast.Node { return qast.Lf(qast.Leaf{Kind: qast.LGroup, Field: "f", Sub: sub}) }
+	or := func(a, b *qast.Node) *qast.Node { return qast.Bin(qast.OOr, a, b) }
+	return []*qast.Node{
+		G(or(T(qast.Wi("x*")), T(qast.W("y")))),
+		G(or(T(qast.W("x")), T(qast.Re("/r/")))),
+		G(or(or(T(qast.W("x")), T(qast.W("y"))), T(qast.Wi("z?")))),
+		G(or(T(qast.Q("a*")), T(qast.I("5")))),
+		G(qast.Bin(qast.OAnd, T(qast.I("5")), T(qast.F("1.5")))),
+		G(qast.UnA(qast.OFuzzy, "2", T(qast.W("x")))),
+		T(qast.I("404")), T(qast.F("1.5")), T(qast.I("-5")), T(qast.Q("a*")), T(qast.Q("/x/")), T(qast.W(`a\*`)), T(qast.Re("/r/")), T(qast.Wi("?")),
+	}
+}
+
 func init() {
+	treeSetsExtra["c11x0"] = c11Extras
 	core.Register(&core.Check{
 		ID:    "C11",
 		Title: "A default field scopes bare terms and changes nothing else",
@@ -51,6 +69,7 @@ func init() {
 				}
 			}
 			add(qast.TreeUnits("tree|full|1|df", len(treeSet("full0")), 1), 1)
+			add(qast.TreeUnits("tree|c11x|1|df", len(treeSet("c11x0")), 1), 1)
 			if tier == "thorough" {
 				add(qast.TreeUnits("tree|full|2|df", len(treeSet("full1")), 60), 4)
 			} else {
